@@ -909,6 +909,10 @@ func (s *MemoryStore) Extend(leaseID string, extendBy time.Duration) error {
 }
 
 func (s *MemoryStore) MarkDead(leaseID string, reason string) error {
+	// A reason that is blank after trimming is no reason, as on the SQL backends.
+	if strings.TrimSpace(reason) == "" {
+		reason = ""
+	}
 	leaseID = strings.TrimSpace(leaseID)
 	s.mu.Lock()
 	defer s.mu.Unlock()
@@ -940,6 +944,10 @@ func (s *MemoryStore) MarkDead(leaseID string, reason string) error {
 }
 
 func (s *MemoryStore) MarkDeadBatch(leaseIDs []string, reason string) (LeaseBatchResult, error) {
+	// A reason that is blank after trimming is no reason, as on the SQL backends.
+	if strings.TrimSpace(reason) == "" {
+		reason = ""
+	}
 	s.mu.Lock()
 	defer s.mu.Unlock()
 
